@@ -880,7 +880,13 @@ impl Transformer {
         let mut has_svg_element = false;
         let mut root_was_empty = false;
         let mut root_classes = Vec::new();
-        if let (pre_svg, Some(first_svg), remain) = events.partition("svg") {
+        // Only the outermost element can be the root: an <svg> further in - inside another
+        // element, or after one - is part of a fragment, which gets nothing added.
+        let (pre_svg, first_svg, remain) = events.partition("svg");
+        let outermost = !pre_svg
+            .iter()
+            .any(|ev| matches!(ev, OutputEvent::Start(_) | OutputEvent::Empty(_)));
+        if let (Some(first_svg), true) = (first_svg, outermost) {
             pre_svg.write_to(writer)?;
             root_was_empty = matches!(first_svg, OutputEvent::Empty(_));
             if let OutputEvent::Start(root) | OutputEvent::Empty(root) = &first_svg {
